@@ -7,6 +7,8 @@ def find(ctx, oblig, diag):
     if "v2_presigned" in oblig or "undecided" in oblig: cases += [["sigv2-presigned", p] for p in PATHS]
     if "v2_header" in oblig or "undecided" in oblig: cases += [["sigv2", p] for p in PATHS]
     if "v4_presigned" in oblig or "undecided" in oblig: cases += [["sigv4", "presigned", p] for p in PATHS]
+    if "http2" in oblig or "undecided" in oblig or "hdrs_range" in oblig:
+        cases += [["sigv4-h2"]]
     if "v4_header" in oblig or "undecided" in oblig:
         cases += [["sigv4-scope"]]
         cases += [["sigv4-body", m, "/bkt/key", b, mode] for m in ("DELETE", "PUT") for b in ("x", "hello world") for mode in ("signed", "empty-hash")]
